@@ -57,8 +57,11 @@ def cases(draw, tier="quick"):
     th = cards.theory(PTO=pto, NfFF=nfff)
     # the heavier quarks: degenerate with h, or heavier by generated ratios (their own Q2/m2 is then lower by the ratio squared: same
     # power law, larger prefactor, which the anchored envelope absorbs) - each massive quark must meet its own asymptotic counterpart
-    r1 = draw(st.sampled_from([1.0, 1.0, 1.5, 2.0, 3.0]))
-    r2 = r1 * draw(st.sampled_from([1.0, 1.0, 1.5, 2.0]))
+    # (ratios up to 6 were tried first: the heaviest quark then sits at Q2/m2 36 times lower than the ladder says, is below or near its
+    # threshold at the anchoring end and decays visibly later - three false alarms of the decay criterion in a thorough run of 8104
+    # cases; with ratios up to 1.56 its envelope is at most 1.9 times the one of the tested quark, inside the factor 3 of the criteria)
+    r1 = draw(st.sampled_from([1.0, 1.0, 1.25]))
+    r2 = r1 * draw(st.sampled_from([1.0, 1.25]))
     if h == "charm":
         th.update({"mc": m, "mb": round(m * r1, 4), "mt": round(m * r2, 4)})
     else:
